@@ -63,7 +63,7 @@ theorem C17_coherent_step {s : GState C D â„} (h : Coherent s) (op : GOp C D â„
     have h2 : Coherent ((s.assignW a.weights).assignM a.means) := by
       cases hm : a.means with
       | none => exact h1
-      | some m => exact coherent_setMeans h1 m
+      | some m => exact coherent_setMeans h1 _
     unfold GState.assignV
     split
     Â· exact coherent_setVariances h2 _
